@@ -133,6 +133,9 @@ name = "{pkg}"
 version = "0.0.0"
 edition = "2021"
 
+[lib]
+doctest = false
+
 [dependencies]
 rrtk = {{ path = "{repo}", default-features = false, features = [{features}] }}
 {extra_deps}
@@ -175,12 +178,14 @@ class Crate:
     def build_dir(self):
         return os.path.join(self.target, "kani", "x86_64-unknown-linux-gnu", "debug", "build", self.pkg)
 
-    def codegen(self, harness_names=None, stubbing=False, timeout=1800):
+    def codegen(self, harness_names=None, stubbing=False, timeout=1800, exact=False):
         """cargo kani --only-codegen; returns dict pretty_name -> (mangled, symtab path, unwind)."""
         shutil.rmtree(self.build_dir(), ignore_errors=True)
         cmd = ["cargo", "kani", "--only-codegen", "-Z", "c-ffi", "--target-dir", self.target]
         if stubbing:
             cmd += ["-Z", "stubbing"]
+        if exact:
+            cmd += ["--exact"]
         for h in harness_names or []:
             cmd += ["--harness", h]
         rc, out, secs = run(cmd, timeout=timeout, cwd=self.dir, limit=False)
@@ -191,7 +196,7 @@ class Crate:
         for m in metas:
             for h in json.load(open(m))["proof_harnesses"]:
                 short = h["pretty_name"].split("::")[-1]
-                meta[short] = (h["mangled_name"], h["goto_file"], h["attributes"].get("unwind_value"))
+                meta[short] = (h["mangled_name"], h["goto_file"], h["attributes"].get("unwind_value"), h["pretty_name"])
         self.meta = meta
         self.codegen_s = secs
         return meta
@@ -233,7 +238,7 @@ def sk_c_source(skeleton):
 
 def link_job(crate, harness, skeleton, jobdir):
     """Replay Kani's goto-cc / goto-instrument steps (flags copied from `cargo kani --verbose`)."""
-    mangled, symtab, _ = crate.meta[harness.name]
+    mangled, symtab = crate.meta[harness.name][:2]
     out = os.path.join(jobdir, "h.out")
     srcs = [symtab, kani_lib_c()]
     if skeleton is not None:
@@ -419,16 +424,30 @@ def run_job(crate, harness, skeleton, jobdir, budget):
         return r
     to = harness.timeout or budget
     if harness.engine == "e1":
-        st, secs, raw = cbmc_sat(goto, harness, names, to)
+        # all properties in one CBMC run (unwinding assertions only exist at symex time, so no --property filter)
+        st, secs, raw = cbmc_sat(goto, harness, [], to)
         r.symex_s = secs
         r.how = "cadical"
         if st is None:
             r.status = "unknown" if raw == "timeout" else "error"
             r.detail = raw
         else:
-            bad = [n for n in names if st.get(n) != "SUCCESS"]
-            r.failed = [_pdesc(by_name[n]) + " => " + str(st.get(n)) for n in bad]
-            r.status = "proved" if not bad else "failed"
+            skip = {p["name"] for p in covers} | {p["name"] for p in allowed}
+            bad = []
+            for n, v in st.items():
+                if n in skip or "reachability_check" in n:
+                    continue
+                if v != "SUCCESS":
+                    bad.append(n)
+            missing = [n for n in names if n not in st]
+            r.failed = [(_pdesc(by_name[n]) if n in by_name else n) + " => " + str(st.get(n)) for n in bad] + [n + " => NOT REPORTED" for n in missing]
+            r.status = "proved" if not (bad or missing) else "failed"
+            ends = [p for p in covers if "vk_end" in p["desc"]]
+            if harness.witness and ends and r.status == "proved":
+                r.witness = all(st.get(p["name"]) in ("FAILURE", "SATISFIED") for p in ends)
+                if not r.witness:
+                    r.status = "error"
+                    r.detail = "vacuous: end of harness unreachable"
     else:
         q = os.path.join(jobdir, "q.smt2")
         kind, secs, sites = smt_dump(goto, harness, names, q, to)
@@ -454,7 +473,7 @@ def run_job(crate, harness, skeleton, jobdir, budget):
             else:
                 r.status, r.detail = "unknown", "smt timeout/unknown after %.0fs" % ssecs
     # vacuity witness: the end-of-harness cover must be reachable (CaDiCaL)
-    if harness.witness and r.status == "proved":
+    if harness.witness and r.status == "proved" and harness.engine != "e1":
         ends = [p for p in covers if "vk_end" in p["desc"]]
         if not ends:
             r.witness = None
